@@ -84,6 +84,14 @@ fn digest_of(der: &[u8]) -> Sha256Digest {
     Certificate::from_der(der.to_vec()).expect("valid der").hash()
 }
 
+/// digests that sort after (practically) every real hash
+fn high_digest(i: u8) -> Sha256Digest {
+    let mut b = [0xffu8; 32];
+    b[31] = i;
+    b[16] = 0xf0 | i;
+    Sha256Digest::new(b)
+}
+
 fn other_digest(i: u8) -> Sha256Digest {
     let mut b = [0x5au8; 32];
     b[0] = i;
@@ -97,7 +105,15 @@ fn verify(der: &[u8], hashes: Vec<Sha256Digest>, now_unix: i64) -> Result<(), St
 
 /// `rest`: the other certificates the server sent behind the leaf (only the leaf may satisfy the pin)
 fn verify_chain(der: &[u8], rest: &[Vec<u8>], hashes: Vec<Sha256Digest>, now_unix: i64) -> Result<(), String> {
-    let v = ServerHashVerification::new(hashes);
+    verify_chain_adds(der, rest, hashes, vec![], now_unix)
+}
+
+/// `adds`: digests given to the verifier one by one through add(), in this order, after construction
+fn verify_chain_adds(der: &[u8], rest: &[Vec<u8>], hashes: Vec<Sha256Digest>, adds: Vec<Sha256Digest>, now_unix: i64) -> Result<(), String> {
+    let mut v = ServerHashVerification::new(hashes);
+    for a in adds {
+        v.add(a);
+    }
     let inter: Vec<rustls::pki_types::CertificateDer> = rest.iter().map(|d| rustls::pki_types::CertificateDer::from(d.clone())).collect();
     let ee = rustls::pki_types::CertificateDer::from(der.to_vec());
     let name = rustls::pki_types::ServerName::try_from("localhost").unwrap();
@@ -116,18 +132,26 @@ fn direct(key: u8, validity_s: i64, now_offset: i64, from_end: bool, hashes: u8)
     let extra = cached_cert(0, 777_777);
     let set: Vec<Sha256Digest> = match hashes {
         0 => vec![],
-        1 => vec![own],
+        1 => vec![own.clone()],
         2 => vec![other_digest(1)],
-        3 => (0..31).map(other_digest).chain(std::iter::once(own)).collect(),
+        3 => (0..31).map(other_digest).chain(std::iter::once(own.clone())).collect(),
         4 => (0..32).map(other_digest).collect(),
         // 5: the pin names another certificate, which the server sends behind its (unpinned) leaf; 6: own pin, longer chain
         5 => vec![digest_of(&extra.0)],
-        _ => vec![own],
+        6 => vec![own.clone()],
+        // 7: eight greater digests at construction, the own one through add(); 8: everything through add(), own in the middle
+        7 => (0..8).map(high_digest).collect(),
+        _ => vec![],
     };
-    let rest: Vec<Vec<u8>> = if hashes >= 5 { vec![extra.0.clone()] } else { vec![] };
-    let pinned = matches!(hashes, 1 | 3 | 6);
+    let adds: Vec<Sha256Digest> = match hashes {
+        7 => vec![own.clone()],
+        8 => (0..4).rev().map(high_digest).chain(std::iter::once(own.clone())).chain((4..6).map(high_digest)).collect(),
+        _ => vec![],
+    };
+    let rest: Vec<Vec<u8>> = if hashes == 5 || hashes == 6 { vec![extra.0.clone()] } else { vec![] };
+    let pinned = matches!(hashes, 1 | 3 | 6 | 7 | 8);
     let want = pinned && nb <= now && now <= na && validity_s <= 14 * DAY && key == 0;
-    let got = std::panic::catch_unwind(|| verify_chain(der, &rest, set, now)).map_err(|_| "verify_server_cert panicked".to_string())?;
+    let got = std::panic::catch_unwind(|| verify_chain_adds(der, &rest, set, adds, now)).map_err(|_| "verify_server_cert panicked".to_string())?;
     match (want, got) {
         (true, Ok(())) => Ok("accepted".into()),
         (false, Err(_)) => Ok("refused".into()),
@@ -329,7 +353,7 @@ pub fn scenarios(tier: Tier) -> Vec<Sc> {
                 }
             }
             for (off, from_end) in nows {
-                for hashes in 0..7u8 {
+                for hashes in 0..9u8 {
                     out.push(Sc::Direct { key, validity_s: v, now_offset: off, from_end, hashes });
                 }
             }
@@ -376,7 +400,7 @@ pub fn run_check(args: &Args) -> i32 {
     let rep = Report::new(
         args,
         "exploration",
-        "complete grid of direct verifier calls with an injected clock: key algorithm (P-256, P-384, Ed25519) x validity (1 s, 13 d, 14 d - 1 s, 14 d, 14 d + 1 s, 15 d, 365 d) x now (not_before -1/0/+1 s, middle, not_after -1/0/+1 s; thorough: +-60 s second by second, and validity 14 d +-60 s) x hash set (empty, own, other, 31 others + own, 32 others, the hash of another valid certificate sent behind the unpinned leaf, own with a longer chain); truncated and bit-flipped DER; end to end on the simulated network: 6 trust policies (hashes own / other / empty, native roots, custom root store with the issuing CA, no validation) x 6 server identities (P-256 14 d, expired, not yet valid, 15 d, P-384, CA-signed leaf); distinct by construction, all non-trivial",
+        "complete grid of direct verifier calls with an injected clock: key algorithm (P-256, P-384, Ed25519) x validity (1 s, 13 d, 14 d - 1 s, 14 d, 14 d + 1 s, 15 d, 365 d) x now (not_before -1/0/+1 s, middle, not_after -1/0/+1 s; thorough: +-60 s second by second, and validity 14 d +-60 s) x hash set (empty, own, other, 31 others + own, 32 others, the hash of another valid certificate sent behind the unpinned leaf, own with a longer chain, own added through add() after greater digests, everything through add() in no particular order); truncated and bit-flipped DER; end to end on the simulated network: 6 trust policies (hashes own / other / empty, native roots, custom root store with the issuing CA, no validation) x 6 server identities (P-256 14 d, expired, not yet valid, 15 d, P-384, CA-signed leaf); distinct by construction, all non-trivial",
     );
     rep.assume("expected decision computed from the generation parameters: hash in set AND not_before <= now <= not_after AND validity <= 14 days AND key is ECDSA P-256");
     rep.assume("end-to-end windows keep >= 1 h / 2 days of margin from the wall clock that rustls reads");
